@@ -96,3 +96,24 @@ Definition ex_R : registry :=
           mk_meth [3]%N [mk_def [4]%N true] [true]] [].
 Example ex_compiles : match compile_with [WJunk] ex_R with Ok C => length (o_meths C) = 2 /\ length (o_image C) > 4 | Err _ => False end.
 Proof. vm_compute. split; [reflexivity|]. repeat constructor. Qed.
+
+(* From the text to the call.  The last two links put together: the translated install_gv, run on the components the earlier
+   stages computed, leaves an image and a slots_strides array; the translated call-time walk of core.hpp, run on THAT image and
+   THAT array, returns - for every legal tuple of dynamic classes, every placement of the non-virtual parameters, virtual_ptr or
+   plain arguments, with and without runtime checks - the word of the definition the documented rule designates, or the
+   method's error stub (C01; the `stale` words of an earlier update are never read: C07). *)
+From Y2 Require Model.MiniWalk Gen.GenWalk Proofs.ResolveProofs.
+
+Theorem C01_source_text_to_dispatch : forall R stale C mi m cs kinds checks,
+  wf_registry R -> compile_with stale R = Ok C -> nth_error (r_methods R) mi = Some m ->
+  Forall (fun c => c < ncls (o_lat C)) cs -> legal R m (map (key (o_lat C)) cs) ->
+  forall st, o_slots C = s_slots st -> o_first C = s_first st ->
+  exists img ss offs vptrs image,
+    MiniGv.run_gv GenGv.gen_install_gv stale (o_meths C) (o_tables C) (s_slots st) (s_first st) (o_vtbl C)
+    = Some (MiniGv.mk_gs img ss offs vptrs, image) /\
+    let cm := nth mi (o_meths C) (mk_cmeth [] [] [] []) in
+    MiniWalk.walk_resolve image (nth mi ss []) (length (cm_vp cm)) None checks GenWalk.gen_walkfns GenWalk.gen_entry
+                 (cm_shape cm) (actuals_of C (m_shape m) cs) kinds
+    = Some (ResolveProofs.word_of_outcome mi (spec_dispatch R (meth_defs R m) (map (key (o_lat C)) cs))).
+Proof. exact UpdateCompose.text_to_dispatch. Qed.
+Print Assumptions C01_source_text_to_dispatch.
